@@ -198,12 +198,15 @@ static Outcome doBytes(const vj::Value& c)
 		if (o.up != c["up"].bytes()) m = "toUpperCase() = " + show(o.up) + ", C locale: " + show(c["up"].bytes());
 		else if (o.lo != c["lo"].bytes()) m = "toLowerCase() = " + show(o.lo) + ", C locale: " + show(c["lo"].bytes());
 		else if (!eqNocase(z, p, 0)) m = "equalsNocase with the case-flipped string " + show(p) + " is false";
+		else if (!z.empty() && (eqNocase(z, c["q"].bytes(), 0) || eqNocase(c["q"].bytes(), z, 0))) m = "equalsNocase with its own proper prefix " + show(c["q"].bytes()) + " is true";
 	}
 	for (int pl = 0; pl < 3 && m.empty(); pl++)
 	{
 		// equal ignoring case <=> lower-cased forms equal; partners: case-flipped string, itself, its own case-mapped forms
 		std::string lz = lowerOf(z), lp = lowerOf(p);
+		std::string q = c["q"].bytes(), lq = lowerOf(q);
 		if (eqNocase(z, p, pl) != (lz == lp)) m = "equalsNocase(z, " + show(p) + ") disagrees with equality of the lower-cased forms";
+		else if (eqNocase(z, q, pl) != (lz == lq) || eqNocase(q, z, pl) != (lz == lq)) m = "equalsNocase(z, prefix " + show(q) + ") disagrees with equality of the lower-cased forms";
 		else if (!eqNocase(z, z, pl)) m = "equalsNocase(z, z) is false";
 		else if (eqNocase(z, lz, pl) != (lz == lowerOf(lz)) && memchr(lz.data(), 0, lz.size()) == 0) m = "equalsNocase(z, lower(z)) disagrees with equality of the lower-cased forms";
 	}
